@@ -544,7 +544,7 @@ def _attempts_writers(rc, rt, r1):
 
 def _range_bound(loop):
     """(a, c): the loop runs a*attempts + c times, for `for _ in range([k,] self._attempts +/- m)`; None otherwise."""
-    if not (isinstance(loop, ast.For) and isinstance(loop.iter, ast.Call) and call_name(loop.iter) == "range" and 1 <= len(loop.iter.args) <= 2 and not loop.iter.keywords):
+    if not (isinstance(loop, ast.For) and isinstance(loop.iter, ast.Call) and call_name(loop.iter) == "range" and 1 <= len(loop.iter.args) <= 3 and not loop.iter.keywords):
         return None
 
     def aff(e):
@@ -560,14 +560,24 @@ def _range_bound(loop):
             return (l[0] + sg * r[0], l[1] + sg * r[1])
         return None
 
-    args = [aff(a) for a in loop.iter.args]
+    args = [aff(a if not (isinstance(a, ast.UnaryOp) and isinstance(a.op, ast.USub) and isinstance(a.operand, ast.Constant)) else ast.Constant(value=-a.operand.value)) for a in loop.iter.args]
     if any(a is None for a in args):
         return None
+    if len(args) == 3:
+        # a countdown: range(hi, lo, -1) runs hi - lo times
+        if args[2] != (0, -1):
+            return None if args[2] != (0, 1) else _affine_count(args[0], args[1])
+        return _affine_count(args[1], args[0])
     lo, hi = ((0, 0), args[0]) if len(args) == 1 else (args[0], args[1])
     if lo[0] != 0:
         return None
     b = (hi[0], hi[1] - lo[1])
     # (for attempts >= 1 a bound attempts + c with c >= -1 is never negative, so the count is exactly the bound)
+    return b if b[0] in (0, 1) and (b[0] == 1 and b[1] >= -1 or b[0] == 0 and b[1] >= 0) else None
+
+
+def _affine_count(lo, hi):
+    b = (hi[0] - lo[0], hi[1] - lo[1])
     return b if b[0] in (0, 1) and (b[0] == 1 and b[1] >= -1 or b[0] == 0 and b[1] >= 0) else None
 
 
